@@ -112,6 +112,12 @@ def meas_body(ctx, case):
         ctx.fail(f"measure:raised-{type(e).__name__}:{kind}", case, f"{type(e).__name__}: {str(e)[:300]}")
         return
     names = ["overlap", "force-bias", "energy"]
+    # Wick-type kinds invert a block per walker (NOCI: one per determinant); where that block is nearly singular the last-bit differences between
+    # two batch shapes are amplified like in any other measurement check: such populations are skipped (and counted), as C01-C03 do
+    amp = max(gens.reference_block_cond(kind, norb, nelec, case["params"], ups[i], dns[i]) for i in range(nw))
+    if amp > 1e4:
+        ctx.count("skipped:reference-block-ill-conditioned")
+        return
     # closed shell, spin-independent one-body term, equal spin blocks: the restricted array and the unrestricted list [W, W] are two
     # containers for the same walkers and must give the same measurements
     h1_ = np.asarray(case["ham"]["h1"], float)
